@@ -90,4 +90,64 @@ def run(ctx):
     st = Stream("rename_ancestor", lines, oracle=roracle,
                 desc="HiddenFS.Rename of every spelling of every proper ancestor of every hidden path: must be refused without an underlying call")
     results.append(run_t1_stream("C11", st, model_ok))
+    results.append(removeall_stream(tier, rnd, model_ok))
     return {"streams": results}
+
+
+def removeall_stream(tier, rnd, model_ok):
+    import t2
+    import worldrun
+    import layerworld as lw
+    import bfsprops
+    n = 150 if tier == "quick" else 3000
+    cases = []
+    for i in range(n):
+        prefix = [None, b"/root"][i % 2]
+        inits, view, hs, hdir = lw.hidden_world(rnd, prefix)
+        anc = [a for a in t2.parents(hdir + b"/q") if a != b"/"] + [hdir]
+        target = rnd.choice(anc + [b"/"] if rnd.random() < 0.1 else anc)
+        ops = [("dump",), ("removeall", rnd.choice([target, target + b"/", target.replace(b"/", b"//", 1)])), ("dump",)]
+        if rnd.random() < 0.3:
+            ops += [("rename", rnd.choice(anc), b"/moved"), ("dump",)]
+        cfg = {"ctor": "generic", "q": b"/unused-backup", "p": prefix, "hs": hs}
+        cases.append(t2.Case("c11r-%d" % i, cfg, inits, ops, meta={"direct": True, "raw": True, "hs": hs, "prefix": prefix}))
+
+    def oracle(case, a):
+        hs_ = case.meta["hs"]
+        pfx = case.meta["prefix"] or b""
+        o = case.ops[1]
+        if o[0] != "removeall" or a["R"].get(1, ("",))[0] != "ok":
+            if o[0] == "removeall" and a["R"].get(1):
+                return "RemoveAll(%s) on an ancestor of hidden paths failed: %s" % (enc(o[1]), a["R"][1][0])
+            return None
+        tgt = pg.goclean(o[1])
+        before = {bfsprops.fields(l)["path"]: l for l in a["S"].get("0", [])}
+        after = {bfsprops.fields(l)["path"]: l for l in a["S"].get("2", [])}
+        vw = lambda wp: (wp[len(pfx):] or b"/") if pfx else wp
+        for wp, l in before.items():
+            v = vw(wp)
+            if pfx and not pg.within(pfx, wp):
+                keep = True
+            elif not pg.within(tgt, v):
+                keep = True          # outside the removed subtree
+            elif lw.below_any(hs_, v):
+                keep = True          # hidden entries and everything below them
+            elif any(h != v and pg.within(v, h) for h in hs_):
+                keep = True          # directories leading to a hidden path
+            else:
+                keep = False
+            if keep and wp not in after:
+                return "RemoveAll(%s) removed %s which is hidden, leads to a hidden path, or lies outside" % (enc(o[1]), enc(wp))
+            if keep and bfsprops.fields(after[wp])["kind"] != "D" and after[wp] != l:
+                return "RemoveAll(%s) changed %s" % (enc(o[1]), enc(wp))
+            if not keep and wp in after:
+                return "RemoveAll(%s) left %s behind (not hidden, not leading to a hidden path)" % (enc(o[1]), enc(wp))
+        for wp in after:
+            if wp not in before:
+                return "RemoveAll created %s" % enc(wp)
+        # no relocation
+        if len(case.ops) > 3 and case.ops[3][0] == "rename" and a["R"].get(3, ("",))[0] == "ok":
+            return "Rename(%s) of an ancestor of a hidden path succeeded" % enc(case.ops[3][1])
+        return None
+    return worldrun.run_stream("C11", "removeall_real_trees", cases, model_ok, level=1, oracle=oracle,
+                               desc="HiddenFS (over OSFS or PrefixFS) in a chroot: trees around one or two hidden paths that are a directory / file / symlink / missing, with siblings sorting before and after them, nested content, symlinks to hidden content; RemoveAll on every ancestor spelling, then Rename of an ancestor; compared with the model; oracle: exactly the hidden entries (and what is below them), the directories leading to hidden paths and everything outside the removed subtree remain, unchanged")
